@@ -43,9 +43,31 @@ pub fn profiles() -> Vec<&'static str> {
     }
 }
 
+/// Address-space limit of one scenario child (`VERIF_NEST_MEM_MB`, default 3072 MiB; the largest
+/// scenario of the thorough grid peaks at about 0.22 GiB on the unchanged tree).
+pub fn mem_cap_bytes() -> u64 {
+    std::env::var("VERIF_NEST_MEM_MB").ok().and_then(|v| v.parse::<u64>().ok()).unwrap_or(3072) << 20
+}
+
 pub fn run_child(profile: &str, shape: &str, api: &str, depth: usize, word: &[u8]) -> Outcome {
+    run_child_timed(profile, shape, api, depth, word).0
+}
+
+pub fn run_child_timed(profile: &str, shape: &str, api: &str, depth: usize, word: &[u8]) -> (Outcome, f64) {
     let exe = if profile == "debug" { debug_child().expect("debug child binary") } else { std::env::current_exe().expect("exe").to_string_lossy().into_owned() };
-    let mut child = Command::new(exe)
+    let mut cmd = Command::new(exe);
+    // address-space cap: a scenario that allocates without bound ends as an allocation failure
+    // (abort) inside its own child instead of exhausting the machine
+    let cap = mem_cap_bytes();
+    unsafe {
+        use std::os::unix::process::CommandExt;
+        cmd.pre_exec(move || {
+            let r = libc::rlimit { rlim_cur: cap, rlim_max: cap };
+            libc::setrlimit(libc::RLIMIT_AS, &r);
+            Ok(())
+        });
+    }
+    let mut child = cmd
         .arg("nest")
         .arg(shape)
         .arg(api)
@@ -74,7 +96,8 @@ pub fn run_child(profile: &str, shape: &str, api: &str, depth: usize, word: &[u8
     };
     let mut out = String::new();
     let _ = stdout.read_to_string(&mut out);
-    match status {
+    let secs = start.elapsed().as_secs_f64();
+    let o = match status {
         None => Outcome::Timeout,
         Some(st) => {
             if let Some(sig) = st.signal() {
@@ -91,12 +114,23 @@ pub fn run_child(profile: &str, shape: &str, api: &str, depth: usize, word: &[u8
                 Outcome::Exit(st.code().unwrap_or(-1))
             }
         }
-    }
+    };
+    (o, secs)
 }
 
+/// A child that ran this long before it was killed by a signal is a resource runaway, not a stack
+/// overflow at a depth worth bisecting; it also ends its grid block, like a hang does.
+pub const SLOW_DEATH_S: f64 = 10.0;
+pub const SLOW_DEATH_NOTE: &str = "not bisected";
+
 pub fn check_scenario(profile: &str, shape: &str, api: &str, depth: usize, word: &[u8]) -> CheckResult {
-    match run_child(profile, shape, api, depth, word) {
+    let (o, secs) = run_child_timed(profile, shape, api, depth, word);
+    match o {
         Outcome::Ok | Outcome::Err => Ok(()),
+        Outcome::Signal(sig) if secs > SLOW_DEATH_S => Err(Fail::new(
+            "abort",
+            format!("[{profile} build] shape {shape} through {api} at depth {depth}: child killed by signal {sig} after {secs:.0} s (allocation beyond the {} MiB address-space cap, or a stack overflow reached slowly; {SLOW_DEATH_NOTE})", mem_cap_bytes() >> 20),
+        )),
         Outcome::Signal(sig) => {
             // bisect the smallest crashing depth for the report
             let (mut lo, mut hi) = (0usize, depth);
@@ -108,7 +142,7 @@ pub fn check_scenario(profile: &str, shape: &str, api: &str, depth: usize, word:
                     lo = mid;
                 }
             }
-            Err(Fail::new("abort", format!("[{profile} build] shape {shape} through {api} at depth {depth}: child killed by signal {sig} (stack overflow); smallest crashing depth is about {hi}")))
+            Err(Fail::new("abort", format!("[{profile} build] shape {shape} through {api} at depth {depth}: child killed by signal {sig} (stack overflow, or an allocation beyond the {} MiB address-space cap); smallest crashing depth is about {hi}", mem_cap_bytes() >> 20)))
         }
         Outcome::Panic => Err(Fail::new("panic", format!("[{profile} build] shape {shape} through {api} at depth {depth}: panicked"))),
         Outcome::Exit(c) => Err(Fail::new("abort", format!("[{profile} build] shape {shape} through {api} at depth {depth}: child exit status {c}"))),
@@ -163,7 +197,7 @@ impl Property for C11P {
          Parser::load with a counting receiver, load_from_str + forget, load_from_str + drop, MarkedYamlOwned load + drop, iteratively \
          built tree + drop, iteratively built tree + YamlEmitter::dump with default settings and with multiline_strings(true); the '? ' shape is built nested in key position (capped at 3*10^3: building it hashes every level)} x depth {1, 10, 10^2, 254, 255, 256, 10^3, 10^4, 3*10^4, 10^5 (+127, 128, 257, 3*10^3, 65535, 65536, 3*10^5 thorough)} \
          plus proptest-generated (shape, API, log-uniform depth, opener word). Each scenario runs in its own child process on a thread \
-         with an 8 MiB stack; the child must exit normally with 'ok' or 'err'. SIGSEGV / SIGABRT => violation (smallest crashing depth \
+         with an 8 MiB stack and a 3 GiB address-space limit; the child must exit normally with 'ok' or 'err'. SIGSEGV / SIGABRT => violation (smallest crashing depth \
          bisected). Non-trivial = depth >= 1000; distinct by (profile, shape, API, depth, word)."
             .into()
     }
@@ -182,6 +216,7 @@ impl Property for C11P {
     fn run_block(&self, ctx: &mut Ctx, stream: &str, block: u64) {
         if stream == "grid" {
             let shape = SHAPES[block as usize];
+            let mut fails = 0;
             for profile in profiles() {
                 for api in APIS {
                     for d in grid_depths(ctx.tier) {
@@ -195,10 +230,12 @@ impl Property for C11P {
                             check_scenario(profile, shape, api, d, &[])
                         });
                         if let Err(f) = r {
-                            let hang = f.category == "hang";
+                            let hang = f.category == "hang" || f.detail.contains(SLOW_DEATH_NOTE);
                             ctx.record(json(), &f);
-                            if hang {
-                                // every further scenario of this shape would cost another 120 s: one hang decides the block
+                            fails += 1;
+                            // four failures outside the known findings say enough about this shape; each further one costs a child run to its limit
+                            if hang || fails >= 4 {
+                                // every further scenario of this shape would cost another 120 s (or another runaway child): one decides the block
                                 return;
                             }
                         }
